@@ -24,7 +24,7 @@ pub open spec fn spec_reg_packet(ty: u16, id: Seq<u8>) -> Seq<u8> {
 // `dst.copy_from_slice(&src[a..b])`: panics unless the lengths agree -> precondition (a real obligation at the call site)
 #[verifier::external_body]
 pub fn copy_from_slice_range(dst: &mut [u8; 256], src: &[u8], a: usize, b: usize)
-    requires a <= b <= src.len(), b - a == 256,
+    requires a <= b <= src.len(), b - a == 256,  // @panic-model
     ensures final(dst)@ == src@.subrange(a as int, b as int),
 { dst.copy_from_slice(&src[a..b]); }
 
@@ -88,7 +88,7 @@ def add_reg(u):
     ]))
     F(u.fn(R, 'build_reg2', impl='SrtlaRegistrationManager', sub='reg', ret='r', post_rewrite=[('create_reg2_packet(', 'create_reg2_packet_(', 1)], ensures=[
         C('C07.reg.build_reg2.carries_adopted_id', 'r@ == spec_reg_packet(0x9201u16, self.srtla_id@)')]))
-    F(u.fn(R, 'process_registration_packet', impl='SrtlaRegistrationManager', sub='reg', ret='r', requires=['now_ms < CLOCK_MAX'], ensures=[
+    F(u.fn(R, 'process_registration_packet', impl='SrtlaRegistrationManager', sub='reg', ret='r', props=('C09', 'C15'), requires=['now_ms < CLOCK_MAX'], ensures=[
         C('C07+C09.reg.dispatch.event_exactly_for_the_four_handshake_types',
           '''(r is Some) == (spec_packet_type(buf@) == Some(0x9211u16) || spec_packet_type(buf@) == Some(0x9201u16) || spec_packet_type(buf@) == Some(0x9202u16) || spec_packet_type(buf@) == Some(0x9210u16))
             && (r is Some ==> ((r.unwrap() is RegNgp) == (spec_packet_type(buf@) == Some(0x9211u16)) && (r.unwrap() is Reg2) == (spec_packet_type(buf@) == Some(0x9201u16))
@@ -124,8 +124,9 @@ def add_reg(u):
         C('C07.reg.handle_reg_ngp.target_only_while_idle', '''final(self).reg1_target_idx != old(self).reg1_target_idx ==> old(self).active_connections == 0 && old(self).pending_reg2_idx is None
             && final(self).reg1_target_idx == Some(conn_idx) && final(self).reg1_next_send_at_ms == now_ms'''),
     ]))
-    F(u.fn(R, 'handle_reg2', impl='SrtlaRegistrationManager', sub='reg', requires=['now_ms < CLOCK_MAX'],
-           post_rewrite=[('self.srtla_id.copy_from_slice(&buf[2..2 + SRTLA_ID_LEN]);', 'copy_from_slice_range(&mut self.srtla_id, buf, 2, 2 + SRTLA_ID_LEN);', 1)],
+    F(u.fn(R, 'handle_reg2', impl='SrtlaRegistrationManager', sub='reg', props=('C09', 'C15'), requires=['now_ms < CLOCK_MAX'],
+           post_rewrite=[(re.compile(r'(\w+(?:\.\w+)*)\.copy_from_slice\(&(\w+)\[([^\]]*?)\.\.([^\]]*?)\]\);'),
+                          lambda m: 'copy_from_slice_range(&mut %s, %s, %s, %s);' % (m.group(1), m.group(2), m.group(3).strip() or '0', m.group(4).strip() or (m.group(2) + '.len()')), 1)],
            ensures=[
         C('C07.reg.handle_reg2.rejects_short_or_wrong_uplink', '(buf.len() < 258 || old(self).pending_reg2_idx != Some(conn_idx)) ==> *final(self) == *old(self)'),
         C('C07.reg.handle_reg2.adopts_id_and_schedules_one_broadcast', '''(buf.len() >= 258 && old(self).pending_reg2_idx == Some(conn_idx)) ==> final(self).srtla_id@ == buf@.subrange(2, 258)
